@@ -74,6 +74,7 @@ class Ctx:
         self.known_hits = collections.Counter()
         self.samples = []
         self.notes = collections.Counter()
+        self.facts = {}
         self._case = None
 
     # -- reporting -----------------------------------------------------------------
@@ -110,6 +111,10 @@ class Ctx:
     def note(self, name, n=1):
         self.notes[name] += n
 
+    def fact(self, key, value):
+        """record a (JSON-able) observation for cross-cell conditions evaluated by prop.finalize"""
+        self.facts.setdefault(key, []).append(value)
+
     def result(self, failures):
         return {
             "cell": self.cell.get("id"),
@@ -119,6 +124,7 @@ class Ctx:
             "excluded": dict(self.excluded),
             "known_hits": dict(self.known_hits),
             "notes": dict(self.notes),
+            "facts": self.facts,
             "samples": self.samples[:2],
             "failures": failures,
         }
